@@ -16,6 +16,15 @@ import (
 
 func init() {
 	ops["crew"] = runCrew
+	ops["mcrewgen"] = func(cfg Config) {
+		enc := json.NewEncoder(out)
+		g := gen.New(cfg.Seed)
+		for i := 0; i < cfg.N; i++ {
+			c := g.MCrewCase(cfg.Profile)
+			c.Id = i
+			enc.Encode(c)
+		}
+	}
 	gen.InlineSpecJSON = func(d *gen.SpecD) interface{} {
 		s := rawSpec(d)
 		js, err := json.Marshal(s)
